@@ -58,6 +58,7 @@ type options struct {
 	KeepOrphans bool   // do not close orphaned DB objects before the lock/fd probes
 	Exclude     string // comma separated operation names never drawn
 	NoCancel    bool   // never draw cancelled contexts
+	LSLog       string // file receiving litestream's debug log
 }
 
 type violation struct {
@@ -151,6 +152,7 @@ func main() {
 	flag.BoolVar(&o.StopFirst, "stopfirst", false, "stop writers before re-registering/enabling databases for the final oracle")
 	flag.StringVar(&o.Discipline, "discipline", "daemon", "api: no harness serialisation; daemon: one compaction per (db,level) and one snapshot per db at a time, as the daemon's monitors guarantee; strict: additionally register/unregister of one path are mutually exclusive")
 	flag.BoolVar(&o.KeepOrphans, "keeporphans", false, "do not close orphaned (re-initialised after Close) DB objects before the lock/fd probes, to see what they leak")
+	flag.StringVar(&o.LSLog, "lslog", "", "diagnostic: write litestream's debug log to this file")
 	flag.BoolVar(&o.NoCancel, "nocancel", false, "never draw cancelled contexts")
 	flag.StringVar(&o.Exclude, "exclude", "", "comma separated operation names that are never drawn (e.g. unreg,reg,regstorm,disable,enable)")
 	flag.Parse()
@@ -191,6 +193,11 @@ func main() {
 	// litestream captures slog.Default() in NewDB/NewStore/NewReplicaClient:
 	// silence it first so stderr carries only race reports.
 	slog.SetDefault(slog.New(slog.NewTextHandler(io.Discard, &slog.HandlerOptions{Level: slog.LevelError + 100})))
+	if o.LSLog != "" { // diagnostic: litestream's own log (debug level) to a file
+		if lf, err := os.Create(o.LSLog); err == nil {
+			slog.SetDefault(slog.New(slog.NewTextHandler(lf, &slog.HandlerOptions{Level: slog.LevelDebug})))
+		}
+	}
 
 	h := &harness{
 		o: o, start: time.Now(),
